@@ -7,7 +7,8 @@
 (* Size = 1 (quick) | 2 (thorough) scales the grammar.                       *)
 (***************************************************************************)
 EXTENDS Fancy, TLC, Json, IOUtils
-CONSTANT Size
+CONSTANTS Size,             \* 1 (quick) | 2 (thorough) scales the grammar
+          Shard, NShards    \* this process expands and writes the programs number Shard, Shard + NShards, ... (1 <= Shard <= NShards)
 
 AliasItem(f, x, n) == [ty |-> "alias", from |-> f, extra |-> x, name |-> n]
 AliasBlocks ==
@@ -29,7 +30,8 @@ AliasBlocks ==
         ELSE {})
 Names(ab) == {ab[i].name: i \in 1..Len(ab)}
 ModLists(ab) ==
-  IF "@r" \in Names(ab) /\ Size < 2 THEN {<<A("@r"), A("@s"), A("@y")>>, <<A("@y"), K("LEFTCTRL"), A("@r")>>} ELSE
+  \* (the blocks with three aliases are there for the combination counting: two modifier lists are enough for them, also at Size 2 for the 2-2-2 block)
+  IF "@r" \in Names(ab) /\ (Size < 2 \/ \E i \in 1..Len(ab): ab[i].from = <<"RIGHTCTRL">>) THEN {<<A("@r"), A("@s"), A("@y")>>, <<A("@y"), K("LEFTCTRL"), A("@r")>>} ELSE
   {<<K("LEFTCTRL")>>}
   \cup (IF Size >= 2 THEN {<<>>, <<K("RIGHTSHIFT")>>, <<K("LEFTCTRL"), K("LEFTALT"), K("RIGHTSHIFT")>>} ELSE {})
   \cup (IF "@s" \in Names(ab) THEN {<<A("@s")>>, <<K("LEFTCTRL"), A("@s")>>} ELSE {})
@@ -104,8 +106,10 @@ Sp0 == [bare |-> TRUE, lower |-> FALSE, explicit |-> FALSE]
 Sp1 == [bare |-> FALSE, lower |-> TRUE, explicit |-> TRUE]
 
 ASSUME PrintT(<<"GENERATED", Len(Progs), Cardinality(Progs1), Cardinality(Progs2), Cardinality(Progs3), Cardinality(Progs4), Cardinality(Progs5), Cardinality(CharProgs)>>)
-ASSUME LET ps == Progs IN
-       ndJsonSerialize(IOEnv.OUT, [i \in 1..Len(ps) |-> [id |-> i, json |-> Render(ps[i], Sp0), json2 |-> Render(ps[i], Sp1), expect |-> Expand(ps[i])]])
+ASSUME LET ps == Progs
+           n == IF Shard > Len(ps) THEN 0 ELSE (Len(ps) - Shard) \div NShards + 1
+       IN ndJsonSerialize(IOEnv.OUT, [j \in 1..n |-> LET i == Shard + (j - 1) * NShards IN
+                                                      [id |-> i, json |-> Render(ps[i], Sp0), json2 |-> Render(ps[i], Sp1), expect |-> Expand(ps[i])]])
 VARIABLE x
 Init == x = 0
 Next == x' = x
